@@ -597,6 +597,56 @@ def describe(line, out, model):
     return "input %r: implementation %r, model %r" % (line, out, model)
 
 
+def run_bulk(ck):
+    """queues built through the public bulk operations (iterator-range constructor, assign, copy / move construction and assignment) must satisfy
+    the handler's invariant (heap = [0, mark), mark = size): same array and mark as the model's heapify, and the first batches handled on
+    them (several pops in ONE batch in particular) give the model's results"""
+    exe = pure_exe()
+    rng = ck.rng
+    quick = ck.tier == "quick"
+    cases = []
+    for _ in range(400 if quick else 6000):
+        n = rng.choice([0, 1, 2, 3, 4, 5, 7, 8, 15, 16, 31, 40, 63])
+        ids = rng.sample(range(1, 200), n)
+        how = rng.randrange(1, 8)
+        npop = rng.randrange(2, 6)
+        ops = ["o"] * npop + (["p%d" % rng.randrange(200, 300)] if rng.random() < 0.5 else [])
+        rng.shuffle(ops)
+        cases.append((how, ids, ops))
+    ml = ["heapify 0 %s" % " ".join(map(str, ids)) for _, ids, _ in cases]
+    mo = [m.rstrip() for m in drv("c13", "\n".join(ml) + "\n", timeout=900)]
+    il = ["build%d %s" % (how, " ".join(map(str, ids))) for how, ids, _ in cases]
+    io = [o.rstrip() for o in run_impl(exe, il)]
+    bad = []
+    for i, (a, b) in enumerate(zip(io, mo)):
+        ck.count(1, ("bulk", cases[i][0], min(len(cases[i][1]), 16)))
+        if a != b:
+            bad.append((il[i], "real queue after the bulk operation: `%s`, model heapify: `%s`" % (a, b)))
+    # first batches on the bulk-built queue
+    ml2, il2 = [], []
+    for (how, ids, ops), m in zip(cases, mo):
+        heap = m.split("|", 1)[1].split() if "|" in m else []
+        ml2.append("batch %s | %s" % (" ".join(heap), " ".join(ops)))
+        il2.append("bbatch%d %s | %s" % (how, " ".join(map(str, ids)), " ".join(ops)))
+    mo2 = [m.rstrip() for m in drv("c13", "\n".join(ml2) + "\n", timeout=900)]
+    io2 = [o.rstrip() for o in run_impl(exe, il2)]
+    bad2 = []
+    for i, (a, b) in enumerate(zip(io2, mo2)):
+        if a != b:
+            bad2.append((il2[i], "real: `%s`, model: `%s`" % (a, b)))
+        else:
+            ck.traces_validated += 1
+    ck.extra["bulk_cases"] = len(cases)
+    ck.oblige("corr:a queue built by the iterator-range constructor / assign / copy or move construction / copy or move assignment has the array and mark "
+              "of the model's heapify (heap = [0, size), mark = size)", "correspondence", not bad, bad[:2])
+    ck.oblige("corr:the first batch handled on a bulk-built queue (several pops in one batch) gives the model's results and final state", "correspondence",
+              not bad2, bad2[:2])
+    for (line, why) in (bad2 or bad)[:1]:
+        # is a pop non-maximal? (independent of the model)
+        ck.counterexample("bulk-built-queue:%s" % line.split()[0], "%s: %s" % (line, why),
+                          {"engine": "E-PURE", "harness": "harness/c13/pure.cpp", "stdin": line, "expect_model": why})
+
+
 def run_pure(ck):
     exe = pure_exe()
     quick = ck.tier == "quick"
@@ -1434,6 +1484,7 @@ def run(ck):
     stage["gen+lean (incl. waiting for the shared build lock)"] = round(time.time() - t0, 1)
     t0 = time.time()
     run_pure(ck)
+    run_bulk(ck)
     stage["E-PURE"] = round(time.time() - t0, 1)
     t0 = time.time()
     run_shim(ck)
@@ -1446,6 +1497,21 @@ def run(ck):
 
 def replay(ck, obj):
     r = obj["replay"]
+    if r.get("engine") == "E-PURE" and r.get("stdin", "").startswith(("bbatch", "build")):
+        exe = pure_exe()
+        line = r["stdin"]
+        w = line.split()
+        how, rest = w[0], w[1:]
+        ids = rest[:rest.index("|")] if "|" in rest else rest
+        heap = drv("c13", "heapify 0 %s\n" % " ".join(ids))[0].rstrip()
+        if how.startswith("build"):
+            want = heap
+        else:
+            want = drv("c13", "batch %s | %s\n" % (heap.split("|", 1)[1].strip(), " ".join(rest[rest.index("|") + 1:])))[0].rstrip()
+        out = run_impl(exe, [line])[0].rstrip()
+        print("replay of %s\n  input : %s\n  output: %s\n  model : %s" % (obj.get("key"), line, out, want))
+        print("  -> %s" % ("STILL FAILS" if out != want else "property holds now"))
+        return 1 if out != want else 0
     if r.get("engine") == "E-PURE":
         exe = pure_exe()
         line = r["stdin"]
